@@ -183,6 +183,10 @@ pub struct Config {
     /// Verification hook: initial capacity of the roll buffer, when set.
     #[cfg(ripgrep_verif)]
     verif_buffer_capacity: Option<usize>,
+    /// Verification hook: upper bound on the length of the prefix that the
+    /// slice based strategies examine for binary data up front, when set.
+    #[cfg(ripgrep_verif)]
+    verif_sniff_capacity: Option<usize>,
 }
 
 impl Default for Config {
@@ -203,6 +207,8 @@ impl Default for Config {
             stop_on_nonmatch: false,
             #[cfg(ripgrep_verif)]
             verif_buffer_capacity: None,
+            #[cfg(ripgrep_verif)]
+            verif_sniff_capacity: None,
         }
     }
 }
@@ -351,6 +357,21 @@ impl SearcherBuilder {
         capacity: Option<usize>,
     ) -> &mut SearcherBuilder {
         self.config.verif_buffer_capacity = capacity;
+        self
+    }
+
+    /// Verification hook: bound the length of the prefix of a slice (memory
+    /// map, multi-line buffer) that is examined for binary data before the
+    /// search starts. The bound actually used is the minimum of the built-in
+    /// one (`DEFAULT_BUFFER_CAPACITY`) and this value, so that "binary data
+    /// beyond the examined prefix" can be exercised with small inputs. Only
+    /// present with `--cfg ripgrep_verif`.
+    #[cfg(ripgrep_verif)]
+    pub fn verif_sniff_capacity(
+        &mut self,
+        capacity: Option<usize>,
+    ) -> &mut SearcherBuilder {
+        self.config.verif_sniff_capacity = capacity;
         self
     }
 
